@@ -987,3 +987,40 @@ Proof.
   destruct (decls_eff_facts (ag_decls ag) l 0 (decls_off l) 0 ast_new) as [_ [_ [_ [H _]]]].
   rewrite H. reflexivity.
 Qed.
+
+(* ---- every block's action type arrives ------------------------------------------- *)
+Lemma in_dedup : forall l n, In n (dedup l) <-> In n l.
+Proof.
+  induction l as [|x l IH]; intros n; cbn [dedup]; [tauto|]. split.
+  - intros [H|H]; [left; exact H|]. apply filter_In in H. right. apply IH. tauto.
+  - intros [H|H]; [left; exact H|].
+    destruct (str_eqb x n) eqn:E.
+    + left. apply str_eqb_eq. exact E.
+    + right. apply filter_In. split; [apply IH; exact H | rewrite E; reflexivity].
+Qed.
+
+Lemma find_first_block : forall rs x, In x rs ->
+  exists y, find (fun r => str_eqb (ar_name r) (ar_name x)) rs = Some y /\ In y rs /\ ar_name y = ar_name x.
+Proof.
+  induction rs as [|z rs IH]; intros x Hx; [destruct Hx|]. cbn [find].
+  destruct (str_eqb (ar_name z) (ar_name x)) eqn:E.
+  - exists z. split; [reflexivity|]. split; [left; reflexivity | apply str_eqb_eq; exact E].
+  - destruct Hx as [Hx|Hx]; [subst z; rewrite str_eqb_refl in E; discriminate E|].
+    destruct (IH x Hx) as [y [H1 [H2 H3]]]. exists y. split; [exact H1|]. split; [right; exact H2 | exact H3].
+Qed.
+
+Lemma ast_of_block_types : ast_of_block_types_stmt.
+Proof.
+  intros k fa l ag Hag x Hx.
+  pose proof (ast_of_faithful k fa l ag Hag) as HF. cbv zeta in HF.
+  destruct HF as [_ [Hnames [Hrules _]]].
+  assert (Hagree : forall r1 r2, In r1 (ag_rules ag) -> In r2 (ag_rules ag) -> ar_name r1 = ar_name r2 -> ar_type r1 = ar_type r2).
+  { unfold wf_agram in Hag. decompose [and] Hag. assumption. }
+  assert (Hin : In (ar_name x) (map r_name (a_rules (ast_of fa l ag)))).
+  { rewrite Hnames. apply in_dedup. apply in_map. exact Hx. }
+  apply in_map_iff in Hin. destruct Hin as [r [Hn Hr]].
+  exists r. split; [exact Hr|]. split; [exact Hn|].
+  destruct (Hrules r Hr) as [_ Ht]. rewrite Ht, Hn. unfold rule_type, block_type.
+  destruct (find_first_block (ag_rules ag) x Hx) as [y [Hf [Hy Hny]]]. rewrite Hf.
+  rewrite (Hagree y x Hy Hx Hny). reflexivity.
+Qed.
